@@ -166,6 +166,22 @@ Section WithPathMatch.
     destruct (anyreach Q1 s), (anymark M1 s), (anyreach Q2 s), (anymark M2 s); reflexivity.
   Qed.
 
+  Lemma anyhide_anyreach Q s : anyhide Q s = true -> anyreach Q s = true.
+  Proof.
+    unfold anyhide, anyreach. intros H. apply existsb_exists in H. destruct H as [q [Hq H]].
+    apply existsb_exists. exists q. split; [exact Hq|]. unfold hides in H. unfold reach.
+    apply andb_prop in H. destruct H as [Ha Hm]. rewrite Ha. cbn [andb]. apply matches_doc_located. exact Hm.
+  Qed.
+
+  Lemma derive_matched_checked Q M s :
+    (s_matched s = true -> s_checked s = true) ->
+    s_matched (derive Q M s) = true -> s_checked (derive Q M s) = true.
+  Proof.
+    unfold derive. cbn. intros H0 H. apply orb_prop in H. destruct H as [H|H].
+    - rewrite (H0 H). reflexivity.
+    - rewrite (anyhide_anyreach _ _ H). cbn. apply orb_true_r.
+  Qed.
+
   Lemma upd_derive g e s : upd g e s = derive [(e, g)] [] s.
   Proof. unfold upd, derive, anyhide, anyreach, anymark. cbn. rewrite !orb_false_r. reflexivity. Qed.
 
@@ -690,4 +706,272 @@ Section WithPathMatch.
       rewrite andb_false_r. reflexivity.
     - split; [apply covers_no_entry; exact Hnoum'|]. exact Hfil.
   Qed.
+
+  (* ---------- exit status in terms of what was shown ---------- *)
+  Definition not_nofail (nofail : list supp) (m : emsg * str) : bool := negb (existsb (hides pm true (fst m)) nofail).
+
+  Lemma spec_exit_shown n f ms : forall seen,
+    spec_exit pm true n f seen ms = existsb (not_nofail f) (pick (spec_forward pm true n seen ms) ms).
+  Proof.
+    induction ms as [|[e t] ms IH]; intros seen; cbn [spec_exit spec_forward pick existsb]; [reflexivity|].
+    rewrite IH.
+    destruct (negb (is_nil t) && negb (mem_str t seen)); cbn [andb].
+    - destruct (existsb (hides pm true e) n); cbn [negb andb orb]; [reflexivity|].
+      cbn [existsb]. unfold not_nofail at 2. cbn [fst]. rewrite andb_true_r. reflexivity.
+    - reflexivity.
+  Qed.
+
+  Lemma existsb_flat_map {A B} (p : B -> bool) (g : A -> list B) l :
+    existsb p (flat_map g l) = existsb (fun x => existsb p (g x)) l.
+  Proof. induction l as [|x l IH]; cbn; [reflexivity|]. rewrite existsb_app, IH. reflexivity. Qed.
+
+  Theorem single_status_shown cfg nomsg nofail fs wp o :
+    whole_run pm None cfg nomsg nofail fs wp = Some o -> Forall (inline_present nomsg) fs ->
+    o_status o = if existsb (not_nofail nofail) (o_reported o) || negb (is_nil_list (o_unmatched o))
+                 then c_exitcode cfg else 0.
+  Proof.
+    intros H Hin. apply whole_run_single_spec in H; [|exact Hin]. cbv zeta in H.
+    destruct H as (_ & Hr & _ & Hs). rewrite Hs, Hr. unfold findings_raise.
+    rewrite existsb_app, existsb_flat_map, <- spec_exit_shown.
+    rewrite (existsb_ext' (fun f => spec_exit pm true nomsg nofail [] (f_msgs f))
+                          (fun x => existsb (not_nofail nofail) (pick (spec_forward pm true nomsg [] (f_msgs x)) (f_msgs x)))).
+    - reflexivity.
+    - intros f. apply spec_exit_shown.
+  Qed.
+
+  Theorem status_zero_default k cfg nomsg nofail fs wp o :
+    whole_run pm k cfg nomsg nofail fs wp = Some o -> c_exitcode cfg = 0 -> o_status o = 0.
+  Proof.
+    unfold whole_run. intros H Hz.
+    destruct (exec_files pm k nomsg nofail fs) as [sr|]; [|discriminate].
+    destruct (logger_run pm true _ wp) as [[st outs]|]; [|discriminate].
+    cbv zeta in H.
+    destruct (if c_info cfg && negb (is_nil_list (l_nomsg st)) then _ else _) as [u|]; [|discriminate].
+    injection H as <-. cbn [o_status]. rewrite Hz. destruct (_ =? 0); reflexivity.
+  Qed.
+
+  (* every executor: what is reported as unmatched carries no matched flag *)
+  Theorem reported_flag_unmatched k cfg nomsg nofail fs wp o s :
+    whole_run pm k cfg nomsg nofail fs wp = Some o -> In s (o_unmatched o) ->
+    In s (o_nomsg o) /\ s_matched s = false.
+  Proof.
+    unfold whole_run. intros H Hs.
+    destruct (exec_files pm k nomsg nofail fs) as [sr|]; [|discriminate].
+    destruct (logger_run pm true _ wp) as [[st outs]|]; [|discriminate].
+    cbv zeta in H.
+    destruct (c_info cfg && negb (is_nil_list (l_nomsg st))).
+    - destruct (report_unmatched pm (c_filters cfg) (c_inline cfg) (l_nomsg st) (map f_path fs)) as [u|] eqn:Hu; [|discriminate].
+      injection H as <-. cbn [o_unmatched o_nomsg] in *.
+      apply (report_unmatched_spec _ _ _ _ _ Hu s) in Hs. apply reported_never_matched in Hs. exact Hs.
+    - injection H as <-. destruct Hs.
+  Qed.
+
+  (* ---------- state transfer from workers: updates commute ---------- *)
+  Lemma same_params_set_flags s x a b : same_params s (set_flags x a b) = same_params s x.
+  Proof. reflexivity. Qed.
+
+  Lemma update_state_static l : forall s, map static (fst (update_state l s)) = map static l.
+  Proof.
+    induction l as [|x l IH]; intros s; cbn [update_state]; [reflexivity|].
+    destruct (same_params s x); [reflexivity|].
+    specialize (IH s). destruct (update_state l s) as [r b]. cbn [fst map] in *. rewrite IH. reflexivity.
+  Qed.
+
+  Lemma update_state_cons s x l :
+    fst (update_state (x :: l) s) = if same_params s x then set_flags x (s_matched s) (s_checked s) :: l
+                                    else x :: fst (update_state l s).
+  Proof. cbn [update_state]. destruct (same_params s x); [reflexivity|]. destruct (update_state l s); reflexivity. Qed.
+
+  Lemma update_state_comm l : forall a b,
+    fst (update_state (fst (update_state l a)) b) = fst (update_state (fst (update_state l b)) a).
+  Proof.
+    induction l as [|x l IH]; intros a b; [reflexivity|].
+    rewrite (update_state_cons a x l), (update_state_cons b x l).
+    destruct (same_params a x) eqn:Ha, (same_params b x) eqn:Hb; rewrite !update_state_cons;
+      rewrite ?same_params_set_flags, ?Ha, ?Hb.
+    - rewrite !set_flags_set_flags.
+      rewrite (orb_comm (s_matched a)), (orb_comm (s_checked a)). reflexivity.
+    - reflexivity.
+    - reflexivity.
+    - rewrite IH. reflexivity.
+  Qed.
+
+  Definition update_all (l : list supp) (us : list supp) : list supp :=
+    fold_left (fun p s => fst (update_state p s)) us l.
+
+  (* the parent's final flags do not depend on the order in which worker records arrive *)
+  Theorem update_all_perm us us' : Permutation us us' -> forall l, update_all l us = update_all l us'.
+  Proof.
+    unfold update_all. induction 1; intros l0; cbn [fold_left].
+    - reflexivity.
+    - apply IHPermutation.
+    - rewrite update_state_comm. reflexivity.
+    - rewrite IHPermutation1. apply IHPermutation2.
+  Qed.
+
+  (* ---------- thread / process executors: the lists keep their suppressions, the
+     per-file exit codes are those of the documented rule ---------- *)
+  Lemma same_params_refl s : same_params s s = true.
+  Proof.
+    unfold same_params. rewrite !(proj2 (str_eqb_eq _ _) eq_refl), Z.eqb_refl, N.eqb_refl, eqb_reflx. reflexivity.
+  Qed.
+
+  Lemma present_of_static w p s : map static w = map static p -> In s w -> existsb (same_params s) p = true.
+  Proof.
+    intros H Hs. apply (in_map static) in Hs. rewrite H in Hs. apply in_map_iff in Hs.
+    destruct Hs as [x [Hx Hi]]. apply existsb_exists. exists x. split; [exact Hi|].
+    change (same_params s x) with (same_params s (static x)). rewrite Hx.
+    change (same_params s (static s)) with (same_params s s). apply same_params_refl.
+  Qed.
+
+  Lemma add_or_update_present p s : existsb (same_params s) p = true -> add_or_update p s = fst (update_state p s).
+  Proof. intros H. unfold add_or_update, add_supp. rewrite H. reflexivity. Qed.
+
+  Lemma transfer_thread_static w : forall p,
+    (forall s, In s w -> existsb (same_params s) p = true) -> map static (transfer_thread p w) = map static p.
+  Proof.
+    unfold transfer_thread. induction w as [|s w IH]; intros p H; cbn [fold_left]; [reflexivity|].
+    assert (Hs : existsb (same_params s) p = true) by (apply H; left; reflexivity).
+    assert (Hp : map static (if s_inline s then add_or_update p s
+                             else if negb (is_local s) then fst (update_state p s) else p) = map static p).
+    { destruct (s_inline s); [rewrite add_or_update_present by exact Hs; apply update_state_static|].
+      destruct (negb (is_local s)); [apply update_state_static|reflexivity]. }
+    rewrite IH; [exact Hp|]. intros x Hx. rewrite (existsb_same_params_static x _ _ Hp). apply H. right. exact Hx.
+  Qed.
+
+  Lemma transfer_process_static w : forall p,
+    (forall s, In s w -> existsb (same_params s) p = true) -> map static (transfer_process p w) = map static p.
+  Proof.
+    unfold transfer_process. induction w as [|s w IH]; intros p H; cbn [fold_left]; [reflexivity|].
+    assert (Hs : existsb (same_params s) p = true) by (apply H; left; reflexivity).
+    assert (Hp : map static (if s_inline s || s_checked s then add_or_update p s else p) = map static p).
+    { destruct (s_inline s || s_checked s); [rewrite add_or_update_present by exact Hs; apply update_state_static|reflexivity]. }
+    rewrite IH; [exact Hp|]. intros x Hx. rewrite (existsb_same_params_static x _ _ Hp). apply H. right. exact Hx.
+  Qed.
+
+  Lemma has_to_log_static ms : forall n seen n2 seen2 bs,
+    has_to_log pm n seen ms = Some (n2, seen2, bs) -> map static n2 = map static n.
+  Proof.
+    induction ms as [|[e t] ms IH]; intros n seen n2 seen2 bs H; cbn [has_to_log] in H.
+    - injection H as <- _ _. reflexivity.
+    - destruct (list_is_suppressed pm n (no_macros e) true) as [[n1 sup]|] eqn:H1; [|discriminate].
+      apply list_is_suppressed_eq in H1. destruct H1 as [-> _].
+      destruct (has_to_log pm _ _ ms) as [[[n3 seen3] bs3]|] eqn:H2; [|discriminate].
+      injection H as <- _ _. apply IH in H2. rewrite H2, map_upd_derive. apply map_static_derive.
+  Qed.
+
+  Theorem multi_files_spec k bn bf fs : forall n f seen sr,
+    multi_files pm k bn bf n f seen fs = Some sr ->
+    map static n = map static bn -> map static f = map static bf -> Forall (inline_present bn) fs ->
+    map static (sr_nomsg sr) = map static bn /\ map static (sr_nofail sr) = map static bf
+    /\ (sr_result sr =? 0) = negb (existsb (fun x => spec_exit pm false bn bf [] (f_msgs x)) fs).
+  Proof.
+    induction fs as [|x fs IH]; intros n f seen sr H Hn Hf Hin; cbn [multi_files] in H.
+    - injection H as <-. cbn. auto.
+    - cbv zeta in H. inversion Hin as [|? ? Hin1 Hin2]; subst.
+      set (wn := match k with EThread => n | EProcess => bn end) in *.
+      set (wf := match k with EThread => f | EProcess => bf end) in *.
+      assert (Hwn : map static wn = map static bn) by (destruct k; [exact Hn|reflexivity]).
+      assert (Hwf : map static wf = map static bf) by (destruct k; [exact Hf|reflexivity]).
+      destruct (check_file pm false wn wf x) as [fr|] eqn:Hc; [|discriminate].
+      apply check_file_spec in Hc; [|apply (inline_present_static bn); [exact Hwn|exact Hin1]].
+      destruct Hc as (Hrn & Hrf & _ & Hex).
+      assert (Hrs : map static (r_nomsg fr) = map static bn) by (rewrite Hrn, map_static_derive; exact Hwn).
+      rewrite (spec_exit_static pm false _ _ _ _ [] (f_msgs x) Hwn Hwf) in Hex.
+      set (pn := match k with EThread => transfer_thread (r_nomsg fr) (r_nomsg fr) | EProcess => n end) in *.
+      assert (Hpn : map static pn = map static bn).
+      { destruct k; [|exact Hn]. unfold pn. rewrite transfer_thread_static; [exact Hrs|].
+        intros s Hs. apply (present_of_static (r_nomsg fr)); [reflexivity|exact Hs]. }
+      destruct (has_to_log pm pn seen (pick (r_out fr) (f_msgs x))) as [[[pn1 seen1] shows]|] eqn:Hh; [|discriminate].
+      apply has_to_log_static in Hh.
+      set (pn2 := match k with EThread => pn1 | EProcess => transfer_process pn1 (r_nomsg fr) end) in *.
+      assert (Hpn2 : map static pn2 = map static bn).
+      { destruct k; unfold pn2; [congruence|]. rewrite transfer_process_static; [congruence|].
+        intros s Hs. apply (present_of_static (r_nomsg fr)); [congruence|exact Hs]. }
+      set (pf := match k with EThread => r_nofail fr | EProcess => f end) in *.
+      assert (Hpf : map static pf = map static bf) by (destruct k; unfold pf; congruence).
+      destruct (multi_files pm k bn bf pn2 pf seen1 fs) as [sr1|] eqn:Hm; [|discriminate].
+      injection H as <-. cbn [sr_nomsg sr_nofail sr_result].
+      apply IH in Hm; [|exact Hpn2|exact Hpf|exact Hin2]. destruct Hm as (H1 & H2 & H3).
+      split; [exact H1|]. split; [exact H2|].
+      cbn [existsb]. rewrite Hex. destruct (spec_exit pm false bn bf [] (f_msgs x)); cbn [orb negb].
+      + destruct (sr_result sr1); reflexivity.
+      + rewrite N.add_0_l. exact H3.
+  Qed.
+
+  Lemma status_arith res (a b : bool) (u : list supp) ec : (res =? 0) = negb a ->
+    (if (if negb (is_nil_list u) && (N.lor res (if b then 1 else 0) =? 0) then ec else N.lor res (if b then 1 else 0)) =? 0
+     then 0 else ec) = if a || b || negb (is_nil_list u) then ec else 0.
+  Proof.
+    intros H. destruct a; cbn [negb orb] in *.
+    - assert (Hl : (N.lor res (if b then 1 else 0) =? 0) = false).
+      { apply N.eqb_neq. intros Hl. apply N.lor_eq_0_iff in Hl. destruct Hl as [Hl _].
+        apply N.eqb_neq in H. contradiction. }
+      rewrite Hl, andb_false_r, Hl. reflexivity.
+    - apply N.eqb_eq in H. rewrite H, N.lor_0_l. destruct b; cbn [orb N.eqb].
+      + destruct u; reflexivity.
+      + destruct u; cbn [is_nil_list negb andb]; [reflexivity|].
+        destruct (ec =? 0) eqn:Hc; [apply N.eqb_eq in Hc; congruence|reflexivity].
+  Qed.
+
+  (* thread / process executors: the status *)
+  Theorem whole_run_multi_status k cfg nomsg nofail fs wp o :
+    whole_run pm (Some k) cfg nomsg nofail fs wp = Some o -> Forall (inline_present nomsg) fs ->
+    o_status o = if existsb (fun x => spec_exit pm false nomsg nofail [] (f_msgs x)) fs
+                    || spec_exit pm true nomsg nofail [] wp
+                    || negb (is_nil_list (o_unmatched o))
+                 then c_exitcode cfg else 0.
+  Proof.
+    unfold whole_run, exec_files. intros H Hin.
+    destruct (multi_files pm k nomsg nofail nomsg nofail [] fs) as [sr|] eqn:Hs; [|discriminate].
+    apply multi_files_spec in Hs; [|reflexivity|reflexivity|exact Hin]. destruct Hs as (Hn & Hf & Hres).
+    destruct (logger_run pm true (mkL (sr_nomsg sr) (sr_nofail sr) [] false) wp) as [[st outs]|] eqn:Hr; [|discriminate].
+    pose proof (logger_run_spec pm true _ _ _ _ Hr) as (_ & He & _ & _). cbn [l_nomsg l_nofail l_seen l_exit] in *.
+    rewrite (spec_exit_static pm true _ _ _ _ [] wp Hn Hf) in He. cbn [orb] in He.
+    cbv zeta in H.
+    destruct (if c_info cfg && negb (is_nil_list (l_nomsg st)) then _ else _) as [u|]; [|discriminate].
+    injection H as <-. cbn [o_status o_unmatched]. rewrite He. apply status_arith. exact Hres.
+  Qed.
 End WithPathMatch.
+
+(* ---------- witnesses (PathMatch instance: equality on plain names) ---------- *)
+Definition pm_eq (a b : str) : bool := str_eqb a b.
+Definition S_NULLPOINTER : str := [110;117;108;108;80;111;105;110;116;101;114].
+Definition S_MEMLEAK : str := [109;101;109;108;101;97;107].
+Definition S_AC : str := [97;46;99].
+Definition mk_plain (id file : str) : supp := mkSupp id file NO_LINE NO_LINE NO_LINE TUnique [] [] 0 false false false false.
+
+(* C24: --suppress=nullPointer --suppress=nullPointer:a.c, one nullPointer finding in a.c *)
+Definition w24_nomsg : list supp := [mk_plain S_NULLPOINTER []; mk_plain S_NULLPOINTER S_AC].
+Definition w24_finding : emsg := mkEmsg 0 S_NULLPOINTER S_AC 3 [] [].
+Definition w24_files : list finput := [mkF S_AC [] [] [(w24_finding, [109])]].
+Definition w24_cfg : config := mkC 0 true false [].
+
+Lemma witness_executor_dependent :
+  exists o1 o2 s,
+    whole_run pm_eq None w24_cfg w24_nomsg [] w24_files [] = Some o1
+    /\ whole_run pm_eq (Some EThread) w24_cfg w24_nomsg [] w24_files [] = Some o2
+    /\ whole_run pm_eq (Some EProcess) w24_cfg w24_nomsg [] w24_files [] = Some o2
+    /\ o_unmatched o1 = [] /\ o_unmatched o2 = [s]
+    /\ hides pm_eq true w24_finding s = true.
+Proof. eexists. eexists. eexists. vm_compute. repeat split; reflexivity. Qed.
+
+(* C25: --suppress=memleak (matches nothing), --exitcode-suppressions with the line
+   unmatchedSuppression, --error-exitcode=7, --enable=information, a.c without findings *)
+Definition w25_nomsg : list supp := [mk_plain S_MEMLEAK []].
+Definition w25_nofail : list supp := [mk_plain UNMATCHED []].
+Definition w25_files : list finput := [mkF S_AC [] [] []].
+Definition w25_cfg : config := mkC 7 true false [].
+
+(* the unmatchedSuppression finding emitted for suppression s, as the suppression lists see it *)
+Definition unmatched_emsg (s : supp) : emsg :=
+  mkEmsg 0 UNMATCHED (s_file s)
+         (if is_nil (s_file s) then NO_LINE else if (s_line s =? NO_LINE)%Z then 0%Z else s_line s) [] [].
+
+Lemma witness_unmatched_ignores_nofail :
+  exists o,
+    whole_run pm_eq None w25_cfg w25_nomsg w25_nofail w25_files [] = Some o
+    /\ o_reported o = []
+    /\ forallb (fun s => existsb (hides pm_eq true (unmatched_emsg s)) w25_nofail) (o_unmatched o) = true
+    /\ o_status o = 7.
+Proof. eexists. vm_compute. repeat split; reflexivity. Qed.
